@@ -267,3 +267,6 @@ UNITS = [
     Unit('ThermochemBase.get_GoRT', (BASE, 'ThermochemBase.get_GoRT'), u_GoRT),
     Unit('lemma:consistency', None, u_lemmas, kind='lemma'),
 ] + INC_UNITS
+
+from . import standins
+STANDINS = [standins.c05_tables]
